@@ -59,7 +59,14 @@ def forms_pass(ck, seed: int, per_op: int) -> Dict[str, Any]:
     rnd = random.Random(seed)
     names = sorted(n for n in cat.CATALOGUE if hasattr(Observable, cat.REAL_NAME.get(n, n)))
     missing = sorted(n for n in cat.CATALOGUE if not hasattr(Observable, cat.REAL_NAME.get(n, n)))
-    specs = [dict(seed=rnd.randrange(10 ** 9), names=[n], hot=rnd.random() < 0.5) for n in names for _ in range(per_op)]
+    def weight(n):
+        """methods that pass three or more arguments on (two callbacks and a source, ...) can mix them up: more scenarios"""
+        try:
+            a, k = cat.CATALOGUE[n][1](cat.Ctx(0))
+            return 5 if len(a) + len(k) >= 3 else 1
+        except Exception:
+            return 1
+    specs = [dict(seed=rnd.randrange(10 ** 9), names=[n], hot=rnd.random() < 0.5) for n in names for _ in range(per_op * weight(n))]
     res = core.parallel_map(_forms_job, specs, procs=10, chunk=40)
     compared, traces, skipped = 0, [], 0
     for spec, out in res:
